@@ -295,7 +295,9 @@ SortC07(ev) ==
       Ix(t) == CHOOSE i \in 1..n : ev.items[i] = t
       known(t) == \E i \in 1..n : ev.items[i] = t
       count(q, t) == Cardinality({i \in 1..Len(q) : q[i] = t})
-      cls(i) == Cardinality({y \in 1..n : ev.m[y][i] < 0})
+      \* the equivalence class of a member: the members that compare equal to it in both directions (a rank number would
+      \* give the members of a Compare cycle the same class and hide that their order changes with the input order)
+      cls(i) == {y \in 1..n : ev.m[y][i] = 0 /\ ev.m[i][y] = 0}
       inOf(p) == [i \in 1..Len(p) |-> ev.items[p[i]]]
       okperm(q) == Len(ev.outs[q]) = Len(ev.perms[q])
                    /\ \A i \in 1..Len(ev.outs[q]) : known(ev.outs[q][i])
